@@ -23,16 +23,56 @@ F = "leptos_i18n/src/fetch_locale.rs"
 C = "leptos_i18n/src/context.rs"
 
 
+def _tail_call(body, env):
+    """(callee last segment, [args], env after the lets) of the call a function body ends with"""
+    from rules import chains
+    env2 = env.child()
+    stmts = body["stmts"] if body["k"] == "Block" else []
+    for st in stmts[:-1]:
+        if st["k"] == "Let":
+            env2.bind_let(st)
+    if not stmts or stmts[-1]["k"] != "ExprStmt" or stmts[-1].get("semi"):
+        return None, [], env2
+    e = chains._unblock(stmts[-1]["expr"])
+    if e["k"] == "Call" and e["func"]["k"] == "Path":
+        return e["func"]["path"].split("::")[-1], e["args"], env2
+    return None, [], env2
+
+
 def r1_chains(ctx):
+    from rules import chains
     r = Rule("C15.R1", "precedence chains are the documented ones",
              "swapping two sources, or dropping one, changes the initial locale only for users who have both (a cookie and a "
              "different Accept-Language, an explicit initial locale and a cookie, ...)", floor=9)
     ast = ctx.ast
+    # 1. chains read off the code (invariant under re-association / match vs combinators / let-binding / renaming)
+    fn = ast.fn(F, "resolve_locale")
+    if fn is None:
+        r.missing("fetch_locale::resolve_locale")
+    else:
+        body, env = chains.fn_env(ast, fn)
+        cs = chains.cases(body, env)
+        want = [((), ['cfg!feature="hydrate"?get_locale_from_html', "param0", "get_accepted_localeparam1"])]
+        if cs == want:
+            r.inst("resolve_locale", "[html lang (hydrate only), cookie, accepted]")
+        else:
+            r.viol("R1:resolve_locale", "precedence is %s, documented [html lang (hydrate only), cookie, accepted]" % cs, file=fn.file, line=fn.line)
+    for name, wchain, what in (("fetch_locale_ssr", ["param0"], "[cookie, accepted]"), ("fetch_locale_csr", ["param0"], "[cookie, accepted]"),
+                               ("fetch_locale_hydrate", ["get_locale_from_html", "param0"], "[html lang, cookie, accepted]")):
+        fn = ast.fn(F, name)
+        if fn is None:
+            r.missing("fetch_locale::" + name)
+            continue
+        body, env = chains.fn_env(ast, fn)
+        callee, args, env2 = _tail_call(body, env)
+        ok = callee == "signal_maybe_once_then" and len(args) == 2
+        cs = chains.cases(args[0], env2) if ok else None
+        then = env2.text(args[1]) if ok else None
+        if ok and cs == [((), wchain)] and then == "param1":
+            r.inst(name, what)
+        else:
+            r.viol("R1:" + name, "precedence changed: start value %s then %s (expected %s, then the accepted locale)" % (cs, then, wchain), file=fn.file, line=fn.line)
     want = {
-        "fetch_locale_ssr": ("{signal_maybe_once_thencurrent_cookie,accepted_locale}", "[cookie, accepted]"),
-        "fetch_locale_csr": ("{signal_maybe_once_thencurrent_cookie,accepted_locale}", "[cookie, accepted]"),
-        "fetch_locale_hydrate": ("{letbase_locale=get_locale_from_html.orcurrent_cookie;signal_maybe_once_thenbase_locale,accepted_locale}", "[html lang, cookie, accepted]"),
-        "resolve_locale": ('{cfg!feature="hydrate".thenget_locale_from_html.flatten.orcurrent_cookie.unwrap_or_elsemove||get_accepted_localeoptions}', "[html lang (hydrate only), cookie, accepted]"),
         "signal_maybe_once_then": ("{matchstart{Somestart=>signal_once_thenstart,then;None=>then}}", "Some(start) -> start once, then `then`; None -> `then`"),
         "signal_once_then": ("{Memo::newmove|init|{letthen=then.get;ifinit.is_none{start.clone}else{then}}}", "first run: start, later: then"),
         "get_accepted_locale": ("{leptos_use::use_locales_with_optionsoptions.with_untracked|accepted|L::find_localeaccepted}", "find_locale(accepted languages)"),
@@ -43,7 +83,7 @@ def r1_chains(ctx):
             r.missing("fetch_locale::" + name)
             continue
         t = flatp(show(fn.body))
-        if t == w:
+        if same(t, w):
             r.inst(name, what)
         else:
             r.viol("R1:" + name, "precedence changed: `%s` (expected `%s` = %s)" % (t[:200], w[:120], what), file=fn.file, line=fn.line)
@@ -61,20 +101,49 @@ def r1_chains(ctx):
         r.inst("get_locale_from_html", "<html lang> parsed with from_str (unknown -> None)")
     else:
         r.viol("R1:get_locale_from_html", "html lang is not parsed with from_str(..).ok()", file=F)
+    # 2. sub-context: the Memo handed to init_context_inner
     fn = ast.fn(C, "init_subcontext_with_options")
-    t = flatp(show(fn.body)) if fn else ""
-    frags = {
-        "first-run": "ifprev_locale.is_none{cookie.orinitial_locale.unwrap_orparent_locale}",
-        "later-runs": "else{initial_locale.orcookie.unwrap_orparent_locale}",
-        "parent": "letparent_locale=use_context::<I18nContext<L>>.map|ctx|ctx.get_locale_untracked;letparent_locale=signal_maybe_once_thenparent_locale,fetch_locale_memo;",
-        "main-resolution-without-cookie": "letfetch_locale_memo=fetch_locale::fetch_localeNone,ssr_lang_header_getter.unwrap_or_default;",
-        "sources": "letinitial_locale=initial_locale.get;letcookie=lang_cookie.get_untracked;letparent_locale=parent_locale.get;",
-    }
-    for k, frag in frags.items():
-        if has(t, frag):
-            r.inst("init_subcontext_with_options#" + k, frag[:100])
+    if fn is None:
+        r.missing("init_subcontext_with_options")
+    else:
+        body, env = chains.fn_env(ast, fn)
+        callee, args, env2 = _tail_call(body, env)
+        memo = None
+        if callee == "init_context_inner" and len(args) == 2:
+            memo = args[1]
+            if memo["k"] == "Path" and memo["path"] in env2.vars:
+                memo = env2.vars[memo["path"]]
+        cl = None
+        if memo is not None and memo["k"] == "Call" and memo["func"]["k"] == "Path" and memo["func"]["path"].endswith("Memo::new") and memo["args"] and memo["args"][0]["k"] == "Closure" \
+                and len(memo["args"][0]["inputs"]) == 1 and memo["args"][0]["inputs"][0]["k"] == "PIdent":
+            cl = memo["args"][0]
+        if cl is None:
+            r.viol("R1:init_subcontext_with_options#memo", "the locale of a sub-context is not a Memo::new(|previous| ..) handed to init_context_inner", file=fn.file, line=fn.line)
         else:
-            r.viol("R1:init_subcontext_with_options#" + k, "sub-context precedence changed (`%s`)" % k, file=C)
+            env3 = env2.child()
+            env3.vars[cl["inputs"][0]["name"]] = {"k": "Path", "path": "previous"}
+            cs = chains.cases(cl["body"], env3)
+
+            def kind(src):
+                if "use_cookie_with_options::<L,FromToStringCodec>" in src and src.endswith(".get_untracked") and "ifENABLE_COOKIE" in src:
+                    return "cookie (untracked; only with a cookie name and the cookie feature)"
+                if src == "param0.get":
+                    return "initial locale signal (tracked)"
+                if src.startswith("signal_maybe_once_thenuse_context::<I18nContext<L>>.map|§0|§0.get_locale_untracked,fetch_locale::fetch_localeNone,param3.unwrap_or_default") and src.endswith(".get"):
+                    return "parent context's locale once, then the main resolution without cookie"
+                return "?" + src[:120]
+            got = sorted((c, [kind(x) for x in srcs]) for c, srcs in cs)
+            CK, IN, PA = "cookie (untracked; only with a cookie name and the cookie feature)", "initial locale signal (tracked)", "parent context's locale once, then the main resolution without cookie"
+            want = sorted([(("previous is None",), [CK, IN, PA]), (("not previous is None",), [IN, CK, PA])])
+            # `if previous.is_none()` is normalised to a match on None
+            got = [(tuple(x.replace("previousisNone", "previous is None") for x in c), s2) for c, s2 in got]
+            if got == want:
+                r.inst("init_subcontext_with_options#first-run", "[cookie, explicit initial locale, parent]")
+                r.inst("init_subcontext_with_options#later-runs", "[initial locale, cookie, parent]")
+                r.inst("init_subcontext_with_options#parent", PA)
+                r.inst("init_subcontext_with_options#sources", "cookie read untracked, initial locale tracked")
+            else:
+                r.viol("R1:init_subcontext_with_options#chains", "sub-context precedence is %s; documented: first run [cookie, initial, parent], later runs [initial, cookie, parent]" % got, file=fn.file, line=fn.line)
     # documentation order
     doc = ctx.read("docs/book/src/infos/01_locale_resol.md")
     items = re.findall(r"^1\. (.*)$", doc, re.M)
